@@ -54,8 +54,9 @@ Section Wit.
   Qed.
 End Wit.
 
-(* FROM <expression> with a malformed LIKE pattern: no error, and the closure is a nil func (first condition)
-   or silently the previous condition *)
+(* FROM <expression> with a malformed LIKE pattern.  With the shadowed err of the earlier code (variant true of the
+   builder): no error, and the closure is a nil func (first condition) or silently the previous condition.
+   The code (build_source): refused. *)
 Section Like.
   Variable upper lower : bytes -> bytes.
   Variable pmatch : bytes -> bytes -> option bool.
@@ -67,13 +68,22 @@ Section Like.
   Hypothesis UP2 : upper OP_EQ = OP_EQ.
   Hypothesis BAD : pmatch BADPAT PROBE = None.
 
-  Lemma like_nil_func : build_source upper lower pmatch (SExpr (Some [[XC false (BCond c_like)]])) = Some None.
+  Lemma like_nil_func : build_source_v upper lower pmatch true (SExpr (Some [[XC false (BCond c_like)]])) = Some None.
   Proof. cbn. rewrite UP1. cbn. rewrite BAD. reflexivity. Qed.
 
-  Lemma like_stale : exists f, build_source upper lower pmatch (SExpr (Some [[XC false (BCond c_eq); XC false (BCond c_like)]])) = Some (Some f) /\
+  Lemma like_stale : exists f, build_source_v upper lower pmatch true (SExpr (Some [[XC false (BCond c_eq); XC false (BCond c_like)]])) = Some (Some f) /\
     forall m, f m = Ok (bytes_eqb (get_or_empty A m) X).
   Proof.
     cbn. rewrite UP2, UP1. cbn. rewrite BAD. eexists. split; [reflexivity|].
     intros m. unfold and_f. cbn [call]. destruct (bytes_eqb (get_or_empty A m) X); reflexivity.
+  Qed.
+
+  Lemma like_refused :
+    build_source upper lower pmatch (SExpr (Some [[XC false (BCond c_like)]])) = None /\
+    build_source upper lower pmatch (SExpr (Some [[XC false (BCond c_eq); XC false (BCond c_like)]])) = None.
+  Proof.
+    split.
+    - cbn. rewrite UP1. cbn. rewrite BAD. reflexivity.
+    - cbn. rewrite UP2, UP1. cbn. rewrite BAD. reflexivity.
   Qed.
 End Like.
